@@ -325,7 +325,11 @@ def run(chk) -> None:
         "conditionals over the sine and cosine terms) and must return phi on every cell, phi = 0 and phi = pi included."
     )
     chk.trusted = ["CPython ast", "numpy cross/dot/norm/arctan2 semantics", "IUPAC-IUB torsion table (spec/iupac_torsions.json)"]
-    chk.assumptions = ["non-degenerate input (no three consecutive points collinear)", "floating-point error is not decided"]
+    chk.assumptions = [
+        "non-degenerate input (no three consecutive points collinear)",
+        "floating-point error is not decided",
+        "input in the domain of the property (bond lengths 0.8-2.5 A, bond angles 20-160 degrees): a conditional normalisation `v / |v| if |v| > eps else v` whose threshold is below half the smallest value of that norm on the domain takes its first branch; any other conditional stays 'a positive multiple of the same vector'",
+    ]
     chk.robust |= {"torsion-closed-form", "clip-noop", "chi-atoms", "chi-agree", "chi-bases", "backbone-atoms", "cis-trans", "cis-trans-atoms", "bph-split", "bph-class-table", "chi-class-units", "chi-dispatch", "degenerate-guard", "torsion-returned", "torsion-wrapper", "interstem-points", "lookup-current-state"}
     check_function(chk, T1, "calculate_torsion_angle_coords")
     check_function(chk, T2, "calculate_torsion_angle")
